@@ -107,7 +107,14 @@ class LevyMeasure:
 
         if a > b:
             raise ValueError("Expected a<b when integrating the levy measure")
-        return quad(lambda x: x**n * self.__call__(x), a, b)[0]
+
+        def xn_nu(x):
+            return x**n * self.__call__(x)
+
+        if a < 0 < b:
+            # the density is singular (or at best discontinuous) at 0: integrate each side separately
+            return quad(xn_nu, a, 0)[0] + quad(xn_nu, 0, b)[0]
+        return quad(xn_nu, a, b)[0]
 
 
 class TruncatedLevyMeasure(LevyMeasure):
